@@ -1,4 +1,5 @@
 import Agd.Lemmas.ECS
+import Agd.Lemmas.ECSHist
 import Agd.Tie.C05
 /-!
 # C05 — client subnets stay private and ECS-dependent answers stay in their region
@@ -811,6 +812,322 @@ theorem extra_opt_rr_forwarded_counterexample :
   revert this
   decide
 
+/-! ## The caches as the code has them: hashed keys with a host check, expiry, a GeoIP that is refreshed
+
+`Model/ECSHist.lean`: slots indexed by `H host bytes` for an **arbitrary** function `H` (collisions
+allowed), entries with an expiry stamp, every call under the GeoIP environment that was in force when
+it mapped its request (`geoip.File.Refresh` may run between any two calls), completions in any
+order, slots emptied at any time. -/
+
+/-- Ranges of a call's fields as the code has them: 16-bit type and class, and a GeoIP that answers
+with addresses of the family and lengths within it. -/
+def WfCall (c : Call) : Prop :=
+  c.r.qtype < 65536 ∧ c.r.qclass < 65536 ∧ ∀ l f p, c.env.subnet l f = some p → p.wf
+
+/-- **hashed_hit_provenance.**  For every hash function, every clock and every sequence of GeoIP
+environments: an answer served from the cache of subnet-dependent answers is the answer of a
+completed call `x` that was cacheable and ECS-dependent, **for the same host name** (the host check),
+**not yet expired** (`c.now ≤ x.now + x.life`), the present client has not opted out, and the hashed
+key of `x` — computed from the subnet `x` was mapped to under *its own* GeoIP environment — is the
+hashed key of the present call under the present environment. -/
+theorem hashed_hit_provenance (H : HashFn) (evs : List HEv) (c : Call)
+    (hsrc : (serveH H (runH H HSt.empty evs) c).2.src = .ecsCache) :
+    ∃ x ∈ callsOf evs, some x.u.token = (serveH H (runH H HSt.empty evs) c).2.tok ∧
+      x.r.host = c.r.host ∧ c.now ≤ x.now + x.life ∧ x.u.cacheable = true ∧
+      dependent x.env x.r x.u = true ∧ declined c.r = false ∧
+      ∃ sub subx, mapped c.env c.r = some sub ∧ mapped x.env x.r = some subx ∧ subx.fam = ecsFamOf x.r ∧
+        hkE H x.r subx = hkE H c.r sub := by
+  obtain ⟨sub, it, hm, hdec, hget', hout⟩ := serveH_ecs_hit H _ c hsrc
+  obtain ⟨hslot, hexp, hhost⟩ := hget_some _ _ _ _ _ hget'
+  obtain ⟨x, hx, ⟨hit, hc⟩, ⟨subx, hmx, hfx, hk⟩, hdep⟩ := (invH_reachable H evs).2 _ it hslot
+  subst hit
+  refine ⟨x, hx, by rw [hout]; rfl, hhost, hexp, hc, hdep, hdec, sub, subx, hm, hmx, hfx, hk.symm⟩
+
+/-- **hashed_partition** (partition across refreshes, with expiry, over the hashed tables).  If the
+hash does not collide *between the key of the present call and the key of a completed call for the
+same host name* (collisions between different host names are harmless: the host check), then an answer
+served from the cache of subnet-dependent answers was obtained by a completed call `x`
+* for the same question (host, type, class) and DO bit,
+* whose lifetime has not run out,
+* and the subnet `x` was mapped to — by the GeoIP environment in force when `x` ran — is, in address,
+  length and family, the subnet the present client is mapped to by the environment in force now.
+A refresh of the GeoIP databases between the two calls does not weaken this: answers stay with the
+*subnet* they were obtained for. -/
+theorem hashed_partition (H : HashFn) (evs : List HEv) (c : Call) (hwf : WfCall c)
+    (hwfs : ∀ x ∈ callsOf evs, WfCall x)
+    (hnc : ∀ x ∈ callsOf evs, ∀ sub subx, x.r.host = c.r.host → hkE H x.r subx = hkE H c.r sub →
+      ekeyBytes (ekey x.r subx) = ekeyBytes (ekey c.r sub))
+    (hsrc : (serveH H (runH H HSt.empty evs) c).2.src = .ecsCache) :
+    ∃ x ∈ callsOf evs, some x.u.token = (serveH H (runH H HSt.empty evs) c).2.tok ∧
+      c.now ≤ x.now + x.life ∧ dependent x.env x.r x.u = true ∧ declined c.r = false ∧
+      (∃ sub, mapped c.env c.r = some sub ∧ mapped x.env x.r = some sub ∧ sub.fam = ecsFamOf x.r) ∧
+      x.r.host = c.r.host ∧ x.r.qtype = c.r.qtype ∧ x.r.qclass = c.r.qclass ∧
+      isDO x.r.extra = isDO c.r.extra := by
+  obtain ⟨x, hx, htok, hhost, hexp, -, hdep, hdec, sub, subx, hm, hmx, hfx, hk⟩ :=
+    hashed_hit_provenance H evs c hsrc
+  have hb := hnc x hx sub subx hhost hk
+  have hwx := hwfs x hx
+  have hkeq : ekey x.r subx = ekey c.r sub :=
+    cache_key_bytes_injective _ _
+      ⟨hwx.1, hwx.2.1, mapped_wf _ _ _ hwx.2.2 hmx⟩ ⟨hwf.1, hwf.2.1, mapped_wf _ _ _ hwf.2.2 hm⟩ hhost hb
+  simp only [ekey, EKey.mk.injEq] at hkeq
+  obtain ⟨h1, h2, h3, h4, h5⟩ := hkeq
+  subst h5
+  exact ⟨x, hx, htok, hexp, hdep, hdec, ⟨subx, hm, hmx, hfx⟩, h1, h2, h3, h4⟩
+
+/-- **hashed_unscoped_reuse.**  The companion for the other cache (the one an opted-out client is
+served from): same host, not expired, stored from an answer that was not ECS-dependent; and without
+a same-host collision, by a call with the same question, DO bit, family and **opt-out flag** — an
+opted-out client is only served what an opted-out call obtained (with a /0 query). -/
+theorem hashed_unscoped_reuse (H : HashFn) (evs : List HEv) (c : Call) (hwf : WfCall c)
+    (hwfs : ∀ x ∈ callsOf evs, WfCall x)
+    (hnc : ∀ x ∈ callsOf evs, ∀ sub subx, x.r.host = c.r.host → hkN H x.r subx = hkN H c.r sub →
+      nkeyBytes (nkey x.r subx) = nkeyBytes (nkey c.r sub))
+    (hsrc : (serveH H (runH H HSt.empty evs) c).2.src = .noecsCache) :
+    ∃ x ∈ callsOf evs, some x.u.token = (serveH H (runH H HSt.empty evs) c).2.tok ∧
+      c.now ≤ x.now + x.life ∧ dependent x.env x.r x.u = false ∧ declined x.r = declined c.r ∧
+      x.r.host = c.r.host ∧ x.r.qtype = c.r.qtype ∧ x.r.qclass = c.r.qclass ∧
+      isDO x.r.extra = isDO c.r.extra := by
+  obtain ⟨sub, it, hm, hget', hout⟩ := serveH_noecs_hit H _ c hsrc
+  obtain ⟨hslot, hexp, hhost⟩ := hget_some _ _ _ _ _ hget'
+  obtain ⟨x, hx, ⟨hit, hc⟩, hk, hdep⟩ := (invH_reachable H evs).1 _ it hslot
+  subst hit
+  have hb := hnc x hx sub (zeroPfx (ecsFamOf x.r)) hhost hk.symm
+  have hwx := hwfs x hx
+  have hkeq : nkey x.r (zeroPfx (ecsFamOf x.r)) = nkey c.r sub :=
+    noecs_key_bytes_injective _ _ ⟨hwx.1, hwx.2.1⟩ ⟨hwf.1, hwf.2.1⟩ hhost hb
+  simp only [nkey, NKey.mk.injEq] at hkeq
+  obtain ⟨h1, h2, h3, h4, -, h6⟩ := hkeq
+  exact ⟨x, hx, by rw [hout]; rfl, hexp, hdep, h6, h1, h2, h3, h4⟩
+
+/-- **expired_never_served.**  For every hash function: once the lifetime of every stored answer has
+run out, nothing is served from either cache — to anyone, whatever subnet they are mapped to. -/
+theorem expired_never_served (H : HashFn) (evs : List HEv) (c : Call)
+    (hexp : ∀ x ∈ callsOf evs, x.r.host = c.r.host → x.now + x.life < c.now) :
+    (serveH H (runH H HSt.empty evs) c).2.src ≠ .ecsCache ∧
+    (serveH H (runH H HSt.empty evs) c).2.src ≠ .noecsCache := by
+  constructor
+  · intro hsrc
+    obtain ⟨x, hx, -, hhost, hle, -⟩ := hashed_hit_provenance H evs c hsrc
+    have := hexp x hx hhost
+    omega
+  · intro hsrc
+    obtain ⟨sub, it, hm, hget', hout⟩ := serveH_noecs_hit H _ c hsrc
+    obtain ⟨hslot, hle, hhost⟩ := hget_some _ _ _ _ _ hget'
+    obtain ⟨x, hx, ⟨hit, hc⟩, hk, hdep⟩ := (invH_reachable H evs).1 _ it hslot
+    subst hit
+    have := hexp x hx hhost
+    simp only [itemOf] at hle
+    omega
+
+/-- **hashed_upstream_private.**  In the refined model too — any cache state, any hash, any moment,
+the GeoIP environment of the call — the upstream query carries exactly one ECS option: the subnet the
+call's own environment maps the request to, or the zero prefix; the zero prefix for an opted-out
+client. -/
+theorem hashed_upstream_private (H : HashFn) (s : HSt) (c : Call) (x : List OptRR)
+    (h : (serveH H s c).2.up = some x ∨ (finishH H s c).2.up = some x) :
+    ∃ sub, mapped c.env c.r = some sub ∧ ecsOpts x = [mkECS sub 0] ∧
+      (sub = zeroPfx (ecsFamOf c.r) ∨ c.env.subnet (locOf c.r) (ecsFamOf c.r) = some sub) ∧
+      (declined c.r = true → sub = zeroPfx (ecsFamOf c.r)) := by
+  have h' : (finishH H s c).2.up = some x := by
+    rcases h with h | h
+    · exact serveH_up H s c x h
+    · exact h
+  rw [finishH_out H s c St.empty] at h'
+  exact interleaved_upstream_private c.env St.empty c.r c.u x h'
+
+/-- The hash used in the examples: the bytes read as a number in base 256 after the host. -/
+def exHash : HashFn := fun h bs => bs.foldl (fun a b => a * 256 + b) h
+
+/-- Non-vacuity of the hypotheses and of the three theorems: A (mapped to 100.64.0.0/16) stores a
+scoped answer at time 10 with a lifetime of 300; a neighbour of A is served it at time 310, no longer
+at 311, and a client mapped elsewhere never. -/
+def exCallA : Call := ⟨exEnv2, 10, exReq, exUp, 300⟩
+def exCallA' (now : Nat) : Call := ⟨exEnv2, now, { exReq with raddr := 77, extra := [] }, exUp, 300⟩
+example : WfCall exCallA := by
+  refine ⟨by decide, by decide, ?_⟩
+  intro l f p h
+  simp only [exCallA, exEnv2, exEnv] at h
+  split at h <;> simp only [Option.some.injEq] at h <;> subst h
+  · simp [Pfx.wf, Fam.bits]
+  · simp [Pfx.wf, zeroPfx, Nat.two_pow_pos]
+example :
+    (serveH exHash (runH exHash HSt.empty [.fin exCallA]) (exCallA' 310)).2.src = .ecsCache ∧
+    (serveH exHash (runH exHash HSt.empty [.fin exCallA]) (exCallA' 311)).2.src = .upstream ∧
+    (serveH exHash (runH exHash HSt.empty [.fin exCallA]) ⟨exEnv2, 20, exB, exUpB, 300⟩).2.src = .upstream := by
+  decide
+
+/-- **hash_collision_counterexample.**  The no-collision hypothesis of `hashed_partition` cannot be
+dropped: with a hash that maps the keys of 100.64.0.0/16 and of the zero prefix to the same slot, a
+client of unknown location (zero prefix) is served the answer scoped to A's subnet — the host check
+does not notice, the host is the same. -/
+theorem hash_collision_counterexample :
+    ¬ ∀ (H : HashFn) (evs : List HEv) (c : Call),
+      (serveH H (runH H HSt.empty evs) c).2.src = .ecsCache →
+      ∃ x ∈ callsOf evs, ∃ sub, mapped c.env c.r = some sub ∧ mapped x.env x.r = some sub := by
+  intro h
+  obtain ⟨x, hx, sub, h1, h2⟩ :=
+    h (fun _ _ => 0) [.fin exCallA] ⟨exEnv2, 20, exB, exUpB, 300⟩ (by decide)
+  simp only [callsOf, List.mem_cons, List.not_mem_nil, or_false] at hx
+  subst hx
+  have e1 : mapped exEnv2 exB = some (zeroPfx .v4) := by decide
+  have e2 : mapped exCallA.env exCallA.r = some ⟨.v4, 1681915904, 16⟩ := by decide
+  simp only at h1
+  rw [e1] at h1
+  rw [e2] at h2
+  simp only [Option.some.injEq] at h1 h2
+  subst h1
+  revert h2
+  decide
+
+/-- **refresh_location_counterexample.**  What a refresh does *not* preserve: answers do not stay
+with a *location*.  Before the refresh country 1 is assigned 100.64.0.0/16 and A (country 1) stores a
+scoped answer; the refreshed database assigns that network to country 2 and nothing to country 1.  A
+client in country 2 is now served A's answer (it is the answer for the subnet it would send), although
+the two clients are in different locations and the present database maps A's location elsewhere. -/
+def exEnvNew : Env :=
+  { data := fun _ _ => some ⟨2, 0, 43⟩
+    subnet := fun l f => if l.ctry = 2 ∧ f = .v4 then some ⟨.v4, 1681915904, 16⟩ else some (zeroPfx f)
+    fake := fun h => h == 3 }
+def exCallNew : Call := ⟨exEnvNew, 20, locate exEnvNew { exReq with raddr := 99, extra := [] }, exUp, 300⟩
+theorem refresh_location_counterexample :
+    (serveH exHash (runH exHash HSt.empty [.fin exCallA]) exCallNew).2.src = .ecsCache ∧
+    locOf exCallA.r ≠ locOf exCallNew.r ∧
+    exCallNew.env.subnet (locOf exCallA.r) .v4 ≠ mapped exCallNew.env exCallNew.r := by
+  decide
+
+/-! ## `geoip.File.Refresh` is not atomic -/
+
+/-- **refresh_window_subnet_assigned.**  While `Refresh` replaces the maps of database pair `old` by
+those of `new`, `SubnetByLocation` can run over the location maps of one and the country maps of the
+other.  In every such combination the answer is the zero prefix, the AS25159 constant, or a network
+that `old` or `new` lists for the location's ASN key, for the top ASN of its country, or for its
+country — never anything else. -/
+theorem refresh_window_subnet_assigned (old new locFrom ctryFrom : GeoDB)
+    (h1 : locFrom = old ∨ locFrom = new) (h2 : ctryFrom = old ∨ ctryFrom = new) (l : Loc) (f : Fam) :
+    (GeoDB.mix locFrom ctryFrom).subnetByLocation l f = zeroPfx f ∨
+    (GeoDB.mix locFrom ctryFrom).subnetByLocation l f = hackPfx ∨
+    (∃ n ∈ old.asnNets ++ new.asnNets, n.2.fam = f ∧
+      (GeoDB.mix locFrom ctryFrom).subnetByLocation l f = lengthen f n.2) ∨
+    (∃ n ∈ old.ctryNets ++ new.ctryNets, n.1 = l.ctry ∧ n.2.fam = f ∧
+      (GeoDB.mix locFrom ctryFrom).subnetByLocation l f = lengthen f n.2) := by
+  rcases subnet_by_location_assigned (GeoDB.mix locFrom ctryFrom) l f _ rfl with
+    h | ⟨-, h, -⟩ | ⟨n, hn, -, hf, h, -⟩ | ⟨n, hn, hc, -, hf, h⟩
+  · exact Or.inl h
+  · exact Or.inr (Or.inl h)
+  · right; right; left
+    refine ⟨n, ?_, hf, h⟩
+    simp only [GeoDB.mix] at hn
+    rcases h1 with h1 | h1 <;> subst h1 <;> simp [hn]
+  · right; right; right
+    refine ⟨n, ?_, hc, hf, h⟩
+    simp only [GeoDB.mix] at hn
+    rcases h2 with h2 | h2 <;> subst h2 <;> simp [hn]
+
+/-- Non-vacuity: the location maps of `exDB` with the country maps of a database that moved country
+1 to 11.0.0.0/8: AS42 still gets its /16 (as /24), another ASN of country 1 the new country network. -/
+def exDBNew : GeoDB := { exDB with ctryNets := [(1, ⟨.v4, 184549376, 8⟩)] }
+example :
+    (GeoDB.mix exDB exDBNew).subnetByLocation ⟨1, 0, 42⟩ .v4 = ⟨.v4, 1681915904, 24⟩ ∧
+    (GeoDB.mix exDB exDBNew).subnetByLocation ⟨1, 0, 43⟩ .v4 = ⟨.v4, 184549376, 24⟩ := by decide
+
+/-! ## Which location a request is attributed to
+
+`locOf` (the model of `locFromReq`) is a program.  The table below says, without it, which location the
+property means by "the client's (or its ECS option's) country/ASN". -/
+
+/-- The location the subnet is looked up for, as a decision table over: does the query carry a valid
+ECS option, is the option's address located (`el`), does that location have a country, is the
+client's address located (`cl`). -/
+structure LocSpec (r : Req) (l : Loc) : Prop where
+  /-- a valid option whose address lies in a known country: that location, whole -/
+  ecs_known : ∀ p e, clientECS r = some p → r.el = some e → e.ctry ≠ 0 → l = e
+  /-- the option's address has no country: country **and** ASN of the client's address -/
+  ecs_no_country : ∀ p e c, clientECS r = some p → r.el = some e → e.ctry = 0 → r.cl = some c →
+    l = ⟨c.ctry, e.subdiv, c.asn⟩
+  /-- neither is located in a country -/
+  ecs_only : ∀ p e, clientECS r = some p → r.el = some e → e.ctry = 0 → r.cl = none → l = e
+  /-- no usable option: country and ASN of the client's address, no subdivision -/
+  client : ∀ c, (clientECS r = none ∨ r.el = none) → r.cl = some c → l = ⟨c.ctry, 0, c.asn⟩
+  /-- nothing known -/
+  nothing : (clientECS r = none ∨ r.el = none) → r.cl = none → l = ⟨0, 0, 0⟩
+
+/-- **locOf_spec.**  `locFromReq` implements the table, and the table determines the location. -/
+theorem locOf_spec (r : Req) : LocSpec r (locOf r) ∧ ∀ l, LocSpec r l → l = locOf r := by
+  have key : LocSpec r (locOf r) := by
+    constructor
+    · intro p e hp he hc
+      simp [locOf, locFromReq, hp, he, hc]
+      cases r.cl <;> simp [hc]
+    · intro p e c hp he hc hcl
+      simp [locOf, locFromReq, hp, he, hc, hcl]
+    · intro p e hp he hc hcl
+      simp [locOf, locFromReq, hp, he, hc, hcl]
+    · intro c h hcl
+      rcases h with h | h
+      · simp [locOf, locFromReq, h, hcl]
+      · cases hp : clientECS r <;> simp [locOf, locFromReq, h, hcl, hp]
+    · intro h hcl
+      rcases h with h | h
+      · simp [locOf, locFromReq, h, hcl]
+      · cases hp : clientECS r <;> simp [locOf, locFromReq, h, hcl, hp]
+  refine ⟨key, ?_⟩
+  intro l hl
+  cases hp : clientECS r with
+  | none =>
+    cases hcl : r.cl with
+    | none => rw [hl.nothing (Or.inl hp) hcl, key.nothing (Or.inl hp) hcl]
+    | some c => rw [hl.client c (Or.inl hp) hcl, key.client c (Or.inl hp) hcl]
+  | some p =>
+    cases he : r.el with
+    | none =>
+      cases hcl : r.cl with
+      | none => rw [hl.nothing (Or.inr he) hcl, key.nothing (Or.inr he) hcl]
+      | some c => rw [hl.client c (Or.inr he) hcl, key.client c (Or.inr he) hcl]
+    | some e =>
+      by_cases hc : e.ctry = 0
+      · cases hcl : r.cl with
+        | none => rw [hl.ecs_only p e hp he hc hcl, key.ecs_only p e hp he hc hcl]
+        | some c => rw [hl.ecs_no_country p e c hp he hc hcl, key.ecs_no_country p e c hp he hc hcl]
+      · rw [hl.ecs_known p e hp he hc, key.ecs_known p e hp he hc]
+
+/-- **loc_single_source.**  Country and ASN of the attributed location always come from the *same*
+look-up: both from the location of the valid option's address, or both from the location of the
+client's address, or both are unknown.  (The ASN of one address is never combined with the country
+of the other.) -/
+theorem loc_single_source (r : Req) :
+    (∃ p e, clientECS r = some p ∧ r.el = some e ∧ (locOf r).ctry = e.ctry ∧ (locOf r).asn = e.asn) ∨
+    (∃ c, r.cl = some c ∧ (locOf r).ctry = c.ctry ∧ (locOf r).asn = c.asn) ∨
+    ((locOf r).ctry = 0 ∧ (locOf r).asn = 0) := by
+  have key := (locOf_spec r).1
+  cases hp : clientECS r with
+  | none =>
+    cases hcl : r.cl with
+    | none => right; right; rw [key.nothing (Or.inl hp) hcl]; exact ⟨rfl, rfl⟩
+    | some c => right; left; exact ⟨c, rfl, by rw [key.client c (Or.inl hp) hcl], by rw [key.client c (Or.inl hp) hcl]⟩
+  | some p =>
+    cases he : r.el with
+    | none =>
+      cases hcl : r.cl with
+      | none => right; right; rw [key.nothing (Or.inr he) hcl]; exact ⟨rfl, rfl⟩
+      | some c => right; left; exact ⟨c, rfl, by rw [key.client c (Or.inr he) hcl], by rw [key.client c (Or.inr he) hcl]⟩
+    | some e =>
+      by_cases hc : e.ctry = 0
+      · cases hcl : r.cl with
+        | none => left; exact ⟨p, e, rfl, rfl, by rw [key.ecs_only p e hp he hc hcl], by rw [key.ecs_only p e hp he hc hcl]⟩
+        | some c =>
+          right; left
+          exact ⟨c, rfl, by rw [key.ecs_no_country p e c hp he hc hcl], by rw [key.ecs_no_country p e c hp he hc hcl]⟩
+      · left; exact ⟨p, e, rfl, rfl, by rw [key.ecs_known p e hp he hc], by rw [key.ecs_known p e hp he hc]⟩
+
+/-- Non-vacuity: a client in country 1/AS42 whose valid option's address lies in country 2 without an
+ASN is attributed country 2 and *no* ASN (not AS42); with an option whose address is not located in
+any country it is attributed its own country and ASN. -/
+example :
+    locOf { exReq with cl := some ⟨1, 0, 42⟩, el := some ⟨2, 0, 0⟩ } = ⟨2, 0, 0⟩ ∧
+    locOf { exReq with cl := some ⟨1, 0, 42⟩, el := some ⟨0, 0, 7⟩ } = ⟨1, 0, 42⟩ ∧
+    locOf { exReq with extra := [], cl := some ⟨1, 5, 42⟩, el := some ⟨2, 0, 9⟩ } = ⟨1, 0, 42⟩ := by decide
+
 #print axioms upstream_subnet_private
 #print axioms upstream_noninterference
 #print axioms declined_never_subnet_cache
@@ -841,5 +1158,17 @@ theorem extra_opt_rr_forwarded_counterexample :
 #print axioms leading_bytes_key_counterexample
 #print axioms dup_ecs_forwarded_counterexample
 #print axioms extra_opt_rr_forwarded_counterexample
+
+#print axioms hashed_hit_provenance
+#print axioms hashed_partition
+#print axioms hashed_unscoped_reuse
+#print axioms expired_never_served
+#print axioms hashed_upstream_private
+#print axioms hash_collision_counterexample
+#print axioms refresh_location_counterexample
+#print axioms refresh_window_subnet_assigned
+#print axioms locOf_spec
+#print axioms loc_single_source
+
 
 end Agd.ECS
